@@ -9,7 +9,7 @@
      printExpr case EUnary              -> emit (IOp o), o prefix/postfix
      binaryExprVisitor.visitRightAndFinish (operator part) -> emit (IOp o), o binary
      printExpr case EIdentifier         -> emit (IId s)
-     printNumber/printNonNegativeFloat (non-negative integers printed as digits) -> emit (INum s)
+     printNumber/printNonNegativeFloat (the text of the non-negative literal is given; the needSpaceBeforeDot rule) -> emit (INum s)
      printExpr case ERegExp             -> emit (IRe b f)
      printExpr case EDot (non-optional, identifier name) -> emit (IDot s)
      printExpr case EIf  -> print_items (ECond), emit IQuest / IColon
@@ -202,10 +202,14 @@ Definition lower (c : Z) : Z := if (65 <=? c) && (c <=? 90) then c + 32 else c.
 Definition starts_script (b : list Z) : bool :=
   zlist_eqb (map lower (firstn 6 b)) (zs "script").
 
+(* printNonNegativeFloat: "We'll need a space before "." if it could be parsed as a decimal point":
+   needSpaceBeforeDot is set unless the printed text contains ".", "e" or "x" *)
+Definition no_dex (s : list Z) : bool := negb (existsb (fun c => (c =? 46) || (c =? 101) || (c =? 120)) s).
+
 Definition emit (mw : bool) (i : item) : act :=
   match i with
   | IId s => printSpaceBeforeIdentifier ;; pr s
-  | INum s => printSpaceBeforeIdentifier ;; pr s ;; set_mark MNum
+  | INum s => printSpaceBeforeIdentifier ;; pr s ;; (if no_dex s then set_mark MNum else nop)
   | IRe b f =>
       (fun st => if (lastc st =? 47) || ((lastc st =? 60) && starts_script b) then pr [32] st else nop st)
       ;; pr ([47] ++ b ++ [47] ++ f) ;; set_mark MRe
